@@ -228,8 +228,8 @@ class Interp:
             return self.load_module(sub)
         if m.globals.get("__opaque__"):
             return Opaque(m.name + "." + attr)
-        if m.path is None:
-            return Opaque(m.name + "." + attr)
+        if m.path is None or m.name in self.stub_sources:
+            return Opaque(m.name + "." + attr)  # names a stub does not model are opaque placeholders
         self.raise_py("AttributeError", f"module {m.name} has no attribute {attr}")
 
     def resolve(self, dotted):
